@@ -27,6 +27,53 @@ CHECKS = {
         "note": NOTE,
         "technique": "static analysis: MIR must-pass / dominance, who-may-call, field pairing (PAIR), ordering (no-path) rules",
     },
+    "C02": {
+        "text": "Decides for all paths: writer state (sequence cache, pending index entries, counters) changes only after a transaction's last fallible append; the expected partition "
+                "sequence is validated against cache-then-index before the first append; the six latest-version lookups walk segments newest first, live before sealed; "
+                "un-synced entries are searched by stream id alone and a partition-key mismatch is an error in all four arms. The decision table of the expectations "
+                "against a reference model is not decided.",
+        "note": NOTE,
+        "technique": "static analysis: store-after-last-fallible-call ordering, dominance on `?` success edges, predicate shape of lookup closures, call ordering on MIR",
+    },
+    "C15": {
+        "text": "Decides the window the property's anchor names, for all paths of rollover: the sealed segment's indexes are installed in the reader pool, the live indexes are "
+                "swapped and the new live segment id is published while the live-index write guard is held (and in that order); readers run their lookup closure under one read "
+                "guard. Does not explore schedules.",
+        "note": NOTE,
+        "technique": "static analysis: guard-liveness region (lock acquisition to drop) on MIR, ordering of stores/calls inside the region",
+    },
+    "C16": {
+        "text": "Decides the structure that makes per-bucket validation+write atomic: the WriterSet methods are only reachable from the worker, Worker::run only from the one spawned "
+                "thread, handle_append_events is synchronous with validation dominating the write, routing has a single source, and the cache of next partition sequences "
+                "(the only record of un-synced appends) is only written by insert after the last fallible append and never shrunk.",
+        "note": NOTE,
+        "technique": "static analysis: who-may-call / who-may-mutate over the resolved call graph, coroutine-freedom, dominance",
+    },
+    "C17": {
+        "text": "Decides checksum coverage, not CRC arithmetic: every path to an Ok record in the three readers passes a successful comparison of the little-endian stored CRC with "
+                "calculate_crc32c(len word, header, data) over the buffers the result is cut from; calculate_crc32c hashes its three raw arguments; append writes exactly the "
+                "pieces it checksummed; flag/length masks partition the length word; record bytes are read only after a flushed-offset bound check.",
+        "note": NOTE,
+        "technique": "static analysis: must-pass of checksum-gate edges, argument provenance, writer/reader sibling agreement on MIR",
+    },
+    "C18": {
+        "text": "Decides for all paths: the bytes the read-ahead buffer may serve are bounded by the flushed offset loaded by the read that filled it; replace_header_with invalidates "
+                "a range starting no later than the bytes it rewrites and syncs before Ok; only Writer::sync/set_len move the flushed offset. Does not explore interleavings.",
+        "note": NOTE,
+        "technique": "static analysis: value-dependence of the cache validity length, linear range comparison, who-may-call on MIR",
+    },
+    "C19": {
+        "text": "Decides that the stored form of a record is never larger than the size the database reserved: the compressed form is returned only on the edge "
+                "stored_buffer.len() < data.len() for the very buffer returned; and that the size test, rollover decision and space check use one estimate with all summands.",
+        "note": NOTE,
+        "technique": "static analysis: guarded-return dominance with buffer identity, shared-subterm check on MIR",
+    },
+    "C20": {
+        "text": "Decides lost-wakeup freedom only: sync always publishes before Ok, successful writes end in sync_if_necessary, the poller visits every writer set and is spawned, every "
+                "request is answered on every path, and rollover syncs the old segment before replacing the channel. No time bound is decided.",
+        "note": NOTE + " Assumes a finite sync interval or reachable size thresholds (configuration).",
+        "technique": "static analysis: must-pass / dominance rules over MIR",
+    },
     "C04": {
         "text": "For all paths of both commit-matching readers: a Transaction is returned only under commit id == pending id and a non-empty list, a Single only "
                 "under a set flag and an empty list, a change of the pending id resets the list, and the two sibling implementations have the same "
